@@ -6,16 +6,22 @@
 package verifrt
 
 // ---- symbolic inputs ----
-func U8(name string) uint8       { return 0 }
-func U16(name string) uint16     { return 0 }
-func U32(name string) uint32     { return 0 }
-func I32(name string) int32      { return 0 }
-func U64(name string) uint64     { return 0 }
-func I64(name string) int64      { return 0 }
-func Bool(name string) bool      { return false }
-func Choice(n int) int           { return 0 }
-func F64(name string) float64    { return 0 }
-func F64Cmp(name string) float64 { return 0 }
+func U8(name string) uint8   { return 0 }
+func U16(name string) uint16 { return 0 }
+func U32(name string) uint32 { return 0 }
+func I32(name string) int32  { return 0 }
+func U64(name string) uint64 { return 0 }
+func I64(name string) int64  { return 0 }
+func Bool(name string) bool  { return false }
+
+// U64n / I64n / U32n: an arbitrary value in [0, 2^bits) (the range is part of the variable's sort,
+// so no Assume is needed and the encoding knows it is non-negative).
+func U64n(name string, bits int) uint64 { return 0 }
+func I64n(name string, bits int) int64  { return 0 }
+func U32n(name string, bits int) uint32 { return 0 }
+func Choice(n int) int                  { return 0 }
+func F64(name string) float64           { return 0 }
+func F64Cmp(name string) float64        { return 0 }
 
 // Param returns a concrete parameter of the job (bounds, grid coordinates).
 func Param(name string) int { return 0 }
@@ -47,15 +53,15 @@ func LastClock() uint64 { return 0 }
 func Tid() int          { return 0 }
 
 // ---- state access / ghost state ----
-func Poke(obj interface{}, field string, v interface{}) {}
-func Peek(obj interface{}, field string) int64          { return 0 }
-func SameObject(a, b interface{}) bool                  { return false }
-func Guard(v interface{}, mu interface{}, what string)  {}
+func Poke(obj interface{}, field string, v interface{})   {}
+func Peek(obj interface{}, field string) int64            { return 0 }
+func SameObject(a, b interface{}) bool                    { return false }
+func Guard(v interface{}, mu interface{}, what string)    {}
 func GuardObj(v interface{}, mu interface{}, what string) {}
-func SetFlag(key string, v int)                         {}
-func GetFlag(key string) int                            { return 0 }
-func Fire(i int) bool                                   { return false }
-func Timers() int                                       { return 0 }
+func SetFlag(key string, v int)                           {}
+func GetFlag(key string) int                              { return 0 }
+func Fire(i int) bool                                     { return false }
+func Timers() int                                         { return 0 }
 
 // ---- primitives used by the Go models in models.go ----
 func GhostGet(p interface{}, key string) int    { return 0 }
